@@ -44,7 +44,11 @@ def build_and_assemble(c, pose, angle0):
     r, A, axis = pose
     from cardillo.math import Spurrier
 
-    system = System()
+    # every second two-point case: an initial time that is not zero and a partner whose position depends on the time explicitly (a driven frame) --
+    # the default reference is the distance at the system's initial time
+    # (fresh sessions only: the other histories move the initial time, where the driven frame is not at rest and a damper legitimately carries a force)
+    moving = c["sub"] == "TwoPoint" and c.get("body") != "rod" and c.get("history") == "fresh" and (int(round(abs(float(np.sum(r))) * 8)) + axis) % 2 == 1
+    system = System(t0=1.3) if moving else System()
     q0 = np.concatenate([np.asarray(r, dtype=float), Spurrier(np.asarray(A, dtype=float))])
     if c.get("body") == "rod":
         from cardillo.rods import RectangularCrossSection, Simo1986
@@ -60,7 +64,14 @@ def build_and_assemble(c, pose, angle0):
     if c.get("body") == "rod":
         pass
     elif c["sub"] == "TwoPoint":
-        sub = TwoPointInteraction(system.origin, body, name="sub")
+        partner = system.origin
+        if moving:
+            from cardillo.discrete import Frame
+            a_, b_ = np.array([0.3, -0.2, 0.1]), np.array([0.4, 0.1, -0.25])
+            # (at rest at the initial time 1.3, so that a damper carries no force there; elsewhere at other times)
+            partner = Frame(r_OP=lambda t: a_ + b_ * (t - 1.3) ** 2, r_OP_t=lambda t: 2.0 * b_ * (t - 1.3), r_OP_tt=lambda t: 2.0 * b_, name="driver")
+            system.add(partner)
+        sub = TwoPointInteraction(partner, body, name="sub")
     else:
         sub = Revolute(system.origin, body, axis=axis, angle0=angle0, name="sub")
     law_name = c["law"]
